@@ -72,16 +72,19 @@ Definition export (items : N) (o : outcome) : bool * option gstatus :=
    ------------------------------------------------------------------------------------------ *)
 Inductive auth := NoAuth | AuthOK | AuthFail.
 
-(* config/configgrpc/configgrpc.go: authUnaryServerInterceptor runs before the handler; then
-   the generated handler decodes the request (grpc-go answers Internal when that fails, see
-   NOTES) and calls Export.  body = None: bytes that do not decode; Some n: n items. *)
+(* grpc-go's generated unary handler (pdata/internal/data/protogen/collector/*/v1/*_service.pb.go
+   _Export_Handler) FIRST decodes the request (grpc-go answers Internal "error unmarshalling
+   request" when that fails) and only then runs the interceptor chain, in which
+   config/configgrpc/configgrpc.go authUnaryServerInterceptor answers Unauthenticated before the
+   handler = Export is reached.  body = None: bytes that do not decode; Some n: n items.
+   (Observed on the implementation by the hop harness: refused credentials + malformed body => Internal.) *)
 Definition recv_grpc (a : auth) (body : option N) (o : outcome) : bool * option gstatus :=
-  match a with
-  | AuthFail => (false, Some (codes_Unauthenticated, None))
-  | _ => match body with
-         | None => (false, Some (codes_Internal, None))
-         | Some n => export n o
-         end
+  match body with
+  | None => (false, Some (codes_Internal, None))
+  | Some n => match a with
+              | AuthFail => (false, Some (codes_Unauthenticated, None))
+              | _ => export n o
+              end
   end.
 
 Inductive verdict := Success | Permanent | Retryable | Throttle (d : Z).
@@ -101,9 +104,13 @@ Definition process_error (w : option gstatus) : verdict :=
    HTTP route: receiver
    ------------------------------------------------------------------------------------------ *)
 Inductive ctype := CtPb | CtJson | CtOther.          (* mime type of the request's Content-Type *)
-Inductive cenc := EncGood | EncBadBody | EncUnsupported.
-(* Content-Encoding: absent/supported with a body that decompresses | supported but the body is
-   not in that format | not in the server's list *)
+Inductive cenc := EncGood | EncBadEager | EncBadLazy | EncUnsupported.
+(* Content-Encoding: absent/supported with a body that decompresses
+   | supported, the body is not in that format and the decoder notices when it is CREATED
+     (config/confighttp/compression.go availableDecoders: gzip.NewReader / zlib.NewReader read the header)
+   | supported, the body is not in that format and the failure shows only while the body is READ
+     (snappy, lz4, zstd decoders are lazy; gzip/zlib with a valid header and a damaged stream)
+   | not in the server's list *)
 
 Record request := mkReq {
   r_auth : auth; r_enc : cenc; r_post : bool; r_ct : ctype;
@@ -137,22 +144,23 @@ Definition error_handler (ct : ctype) (st : Z) : response :=
   | _ => write_status_response st (NewStatusFromMsgAndHTTPCode st, None)
   end.
 
-(* confighttp.ToServer order: authInterceptor -> (max body) -> httpContentDecompressor -> mux ->
+(* confighttp.ToServer order: authInterceptor -> (max body) -> httpContentDecompressor (unknown
+   Content-Encoding, or a decoder that fails when created: errorHandler 400) -> mux ->
    otlphttp.go handleX: readContentType (method, then media type) -> readAndCloseBody (a body
-   that does not decompress fails here, while reading) -> unmarshal -> Export -> writeError/200 *)
+   that fails to decompress while being read fails here) -> unmarshal -> Export -> writeError/200 *)
 Definition recv_http (rq : request) (o : outcome) : bool * response :=
   match r_auth rq with
   | AuthFail => (false, error_handler (r_ct rq) 401)
   | _ =>
     match r_enc rq with
-    | EncUnsupported => (false, error_handler (r_ct rq) 400)
+    | EncUnsupported | EncBadEager => (false, error_handler (r_ct rq) 400)
     | _ =>
       if negb (r_post rq) then (false, mkResp 405 None None)
       else match r_ct rq with
            | CtOther => (false, mkResp 415 None None)
            | _ =>
              match r_enc rq, r_body rq with
-             | EncBadBody, _ => (false, write_error None 400)
+             | EncBadLazy, _ => (false, write_error None 400)
              | _, None => (false, write_error None 400)
              | _, Some n =>
                  match export n o with
@@ -257,18 +265,12 @@ End Payload.
 (* gRPC: CANCELLED, DEADLINE_EXCEEDED, ABORTED, OUT_OF_RANGE, UNAVAILABLE, DATA_LOSS are retryable;
    RESOURCE_EXHAUSTED only if the server signals recovery with RetryInfo; everything else is not *)
 Definition spec_grpc_retryable (c : Z) (has_retry_info : bool) : bool :=
-  match c with
-  | 1 | 4 | 10 | 11 | 14 | 15 => true
-  | 8 => has_retry_info
-  | _ => false
-  end.
+  (c =? 1) || (c =? 4) || (c =? 10) || (c =? 11) || (c =? 14) || (c =? 15)
+  || ((c =? 8) && has_retry_info).
 
 (* HTTP: 429, 502, 503, 504 are retryable; all other 4xx/5xx are not *)
 Definition spec_http_retryable (st : Z) : bool :=
-  match st with
-  | 429 | 502 | 503 | 504 => true
-  | _ => false
-  end.
+  (st =? 429) || (st =? 502) || (st =? 503) || (st =? 504).
 
 (* coarse meaning of a verdict *)
 Inductive vclass := CSuccess | CPermanent | CRetryable.
